@@ -4,3 +4,4 @@ package pngmeta
 // overrides them through the engine's constant hook).
 var verifC07N = 40
 var verifC08N = 24
+var verifC09N = 28
